@@ -76,6 +76,23 @@ impl Profile {
                 w_abort: 25,
                 w_reader: 4,
                 w_reopen: 4,
+                w_acct: 100,
+                w_settle: 2,
+                ..base
+            },
+            // abandoned transactions after savepoint operations, between non-durable commits
+            "spabort" => Profile {
+                names: vec!["a", "b"],
+                multimaps: false,
+                w_savepoint: 40,
+                w_catalog: 3,
+                ops_per_txn: 6,
+                w_abort: 40,
+                w_nondurable: 60,
+                w_reader: 2,
+                w_reopen: 1,
+                w_acct: 100,
+                w_settle: 2,
                 ..base
             },
             "reader" => Profile {
@@ -177,6 +194,7 @@ pub struct Gen {
     ctr: u32,
     vctr: u32,
     last_step: Option<J>,
+    long_bytes: Vec<u32>,
 }
 
 impl Gen {
@@ -204,6 +222,7 @@ impl Gen {
             ctr: 0,
             vctr: 0,
             last_step: None,
+            long_bytes: cx.long_keys("bytes"),
         }
     }
 
@@ -255,6 +274,9 @@ impl Gen {
         if vt == "u64" {
             // many small values: lets a key grow to hundreds of values
             rng.random_range(0..400)
+        } else if !self.long_bytes.is_empty() && rng.random_range(0..4) == 0 {
+            // long values: a key's values are stored inline or in a subtree depending on their size
+            self.long_bytes[rng.random_range(0..self.long_bytes.len())]
         } else {
             rng.random_range(0..self.nkeys)
         }
